@@ -410,6 +410,30 @@ func scenarioConnectTargets(c *vrun.Ctx) {
 			c.Outcome("ok:" + hostClass(h))
 		}
 	}
+	// a client that sends its ClientHello in the same write as the CONNECT request (it need not wait for
+	// the 200; what follows the request's blank line belongs to the tunnel): the handshake has to
+	// complete and the tunnel has to work like any other
+	for _, h := range []string{"eager.example.com", "127.0.0.9"} {
+		i++
+		if !c.Mine(i) {
+			continue
+		}
+		c.Case()
+		target := h + ":443"
+		t, cr := env.srv.OpenTunnelEager(target, env.tlsConfig(h), 30*time.Second)
+		if t == nil {
+			c.SetCase(target + " eager")
+			c.Violation("C11/connect/eager-client-gets-no-certificate/"+hostClass(h), fmt.Sprintf("CONNECT %s with the ClientHello sent right behind the request: status %d, %s", target, cr.Status, cr.Err), nil)
+			c.Violation("C16/connect/eager-client-left-without-a-response", fmt.Sprintf("CONNECT %s with the ClientHello sent right behind the request: the proxy answered %d and then never completed the TLS handshake (%s)", target, cr.Status, cr.Err), nil)
+			continue
+		}
+		if r := t.Do(rawOriginForm("GET", "/x", nil, "")); r.Status != 200 {
+			c.SetCase(target + " eager")
+			c.Violation("C11/connect/request-through-tunnel", fmt.Sprintf("CONNECT %s (eager client): request through the tunnel: %d %s", target, r.Status, r.Err), nil)
+		}
+		t.Close()
+		c.Outcome("ok:eager:" + hostClass(h))
+	}
 	// positions of certificate expiry in a history of tunnels to one target (through the real
 	// handleCONNECT, verified by the client at the virtual time): every history over {open a tunnel
 	// to h:443, open one to h:8443, +239 h, +2 h} of length 4
